@@ -23,6 +23,7 @@ import asyncio
 import base64
 import itertools
 import logging
+import os
 import re
 
 from .. import coqterm as T
@@ -314,6 +315,8 @@ def enc_resp(word: bytes, rs) -> str:
         text = 'TxAuth'            # no mechanism / failed / cancelled / broke: the SASL oracle's side
     elif t == 'Server error.':
         text = 'TxServerError'
+    elif t == 'Action not supported.':
+        text = 'TxNotSupported'
     elif word == b'CHECKSCRIPT' and r.cond == 'NO':
         text = 'TxCompile'
     else:
@@ -344,6 +347,14 @@ def first_word(buf: bytes) -> bytes:
 
 
 # ------------------------------------------------------- the implementation
+import threading
+# building a server configuration creates an SSLContext (OpenSSL loads the CA
+# store); doing that from several threads at once crashed the interpreter, so
+# environments are built one at a time
+_ENV_LOCK = threading.Lock()
+_ENV_LOCK2 = threading.Lock()
+
+
 def _memoise_entry_points() -> None:
     """pysasl rescans the installed distributions' entry points for every
     new connection (8 ms); the answer cannot change within this process, so it
@@ -360,11 +371,26 @@ def _memoise_entry_points() -> None:
         return memo[key]
     entry_points._verif_memo = True
     pysasl.entry_points = entry_points
+    # every IMAPConfig builds an SSLContext (ssl.create_default_context loads the CA store:
+    # slow, and it crashed the interpreter when done from several threads); no TLS is ever
+    # spoken here, so one context is shared
+    import ssl
+    real_ctx, made = ssl.create_default_context, []
+
+    def create_default_context(*a, **kw):
+        with _ENV_LOCK2:
+            if not made:
+                made.append(real_ctx(*a, **kw))
+        return made[0]
+    ssl.create_default_context = create_default_context
 
 
 class World:
     """One in-process dict-backend server with the three users, a few program
     connections and one observer connection per user."""
+
+    backend = 'dict'
+    users = USERS
 
     def __init__(self, cfg_name: str) -> None:
         self.cfg_name = cfg_name
@@ -379,7 +405,8 @@ class World:
         from pymap.backend.dict import Identity
         _memoise_entry_points()
         args, overrides, _ = CONFIGS[self.cfg_name]
-        self.env = await DictEnv(**args).start(**overrides)
+        with _ENV_LOCK:
+            self.env = await DictEnv(**args).start(**overrides)
         cfg = self.env.config
         pw = Passwords(cfg)
         for name, password in USERS.items():
@@ -470,8 +497,83 @@ class World:
             except Exception:
                 pass
 
+    # how a store snapshot is written for the model
+    @staticmethod
+    def enc_store(snap) -> str:
+        return enc_fstate(*snap)
 
-def expected_auth(mech: bytes, initial, conts):
+    @staticmethod
+    def snap_strings(snap):
+        return [v for _n, v in snap[0]]
+
+    case_ctor, case_type, case_chk, case_diag = 'mk_case', 'prog_case', 'chk_prog', 'diag_prog'
+
+
+M_USERS = {'u1': 'pw1', 'u2': 'pw2'}
+
+
+class MWorld(World):
+    """The maildir backend (temporary directory, '++' layout) behind the same
+    ManageSieve server; a user's store is the file <user dir>/dovecot.sieve."""
+    backend = 'maildir'
+    users = M_USERS
+
+    async def start(self, nconns: int, observe=('u1', 'u2'), warm=()) -> 'MWorld':
+        from ..pymap_env import MaildirEnv, Conn
+        from pymap.sieve.manage import ManageSieveServer
+        _memoise_entry_points()
+        with _ENV_LOCK:
+            self.env = await MaildirEnv('++', users=tuple(M_USERS.items())).start()
+        self._server = ManageSieveServer(self.env.login_obj, self.env.config)
+        self._Conn = Conn
+        for u in observe:
+            c = await self._connect()
+            r = await c.send(b'AUTHENTICATE "PLAIN" ' + q(base64.b64encode(
+                b'\0' + u.encode() + b'\0' + M_USERS[u].encode())) + b'\r\n')
+            assert r == b'OK\r\n', r
+            self.observers[u] = c
+        for _ in range(nconns):
+            c = await self._connect()
+            self.conns.append(c)
+            self.greeting = c.greeting
+        return self
+
+    async def _connect(self):
+        c = self._Conn(self._server)
+        c.greeting = await c.start()
+        self.all_conns.append(c)
+        return c
+
+    def snapshot(self):
+        import os
+        out = {}
+        for u in M_USERS:
+            try:
+                with open(os.path.join(self.env.base, u, 'dovecot.sieve'), 'rb') as f:
+                    out[u] = f.read()
+            except FileNotFoundError:
+                out[u] = None
+        return out
+
+    async def close(self) -> None:
+        await super().close()
+        self.env.close()
+
+    @staticmethod
+    def enc_store(snap) -> str:
+        return 'None' if snap is None else f'(Some {B(snap)})'
+
+    @staticmethod
+    def snap_strings(snap):
+        return [] if snap is None else [snap]
+
+    case_ctor, case_type, case_chk, case_diag = 'mk_mcase', 'mprog_case', 'chk_mprog', 'diag_mprog'
+
+
+WORLDS = {'dict': World, 'maildir': MWorld}
+
+
+def expected_auth(mech: bytes, initial, conts, users=USERS):
     """The harness's own SASL oracle (its user table): the user an exchange
     authenticates, or None.  PLAIN: authzid NUL authcid NUL password in the
     initial response or in the first continuation line; LOGIN: user name and
@@ -509,7 +611,7 @@ def expected_auth(mech: bytes, initial, conts):
         user = cid.decode('utf-8')
     except UnicodeError:
         return None
-    if USERS.get(user) is not None and USERS[user].encode() == pw:
+    if users.get(user) is not None and users[user].encode() == pw:
         return user
     return None
 
@@ -543,7 +645,9 @@ class Monitor:
     user.  After every step the stores observed through the observers'
     LISTSCRIPTS/GETSCRIPT must equal the dictionaries."""
 
-    def __init__(self, users) -> None:
+    def __init__(self, users, backend: str = 'dict') -> None:
+        self.backend = backend
+        self.single = backend == 'maildir'      # one-script store: what is stored is active
         self.maps = {u: {} for u in users}
         self.active = {u: None for u in users}
         self.auth = {}          # connection -> user name (authenticated)
@@ -554,7 +658,7 @@ class Monitor:
         self.active[u] = active[0] if active else None
 
     def bad(self, clause, what, kind):
-        self.fail.append((clause, what, {'kind': kind}))
+        self.fail.append((clause, what, {'kind': kind, 'backend': self.backend}))
 
     def step(self, ev, rs):
         """ev: dict(conn, kind, args, ok_spelling, word); rs: responses|None."""
@@ -587,7 +691,7 @@ class Monitor:
             return
         ok = r.cond == 'OK'
         # a map does not refuse what it must accept (well-spelled commands only)
-        if ev['ok_spelling'] and not ok:
+        if ev['ok_spelling'] and not ok and not self.single:
             must = (kind == 'SETACTIVE' and (a[0] == b'' or a[0] in m)) \
                 or (kind == 'DELETE' and a[0] in m and a[0] != act) \
                 or (kind == 'RENAME' and a[0] in m and a[1] not in m and a[1] in NAMES)
@@ -596,6 +700,8 @@ class Monitor:
                          f'active {act!r}', 'refused')
         if kind == 'PUT' and ok:
             m[a[0]] = a[1]
+            if self.single:
+                self.active[u] = a[0]
         elif kind == 'GET':
             if a[0] in m and ev['ok_spelling']:
                 if not ok or r.items != [(m[a[0]], None)]:
@@ -614,13 +720,13 @@ class Monitor:
                 self.active[u] = None
             elif a[0] in m:
                 self.active[u] = a[0]
-            else:
+            elif not self.single:       # (the one-script store accepts SETACTIVE "active" with no script: no effect)
                 self.bad('sieve_map', f'SETACTIVE of an unknown name {a[0]!r} answered OK', 'active_unknown')
         elif kind == 'DELETE' and ok:
             if a[0] == act:
                 self.bad('sieve_map', f'the active script {a[0]!r} was deleted', 'active_deleted')
                 self.active[u] = None
-            if a[0] not in m:
+            if a[0] not in m and not self.single:
                 self.bad('sieve_map', f'DELETESCRIPT of an unknown name {a[0]!r} answered OK', 'delete_unknown')
             m.pop(a[0], None)
         elif kind == 'RENAME' and ok:
@@ -680,7 +786,7 @@ def spell(rng, b: bytes, how=None) -> tuple[bytes, bool]:
     return b'"' + b + b'"', not re.search(rb'[\r\n"\\]', b)      # unescaped
 
 
-def gen_event(rng, nconns: int, names, datas) -> dict:
+def gen_event(rng, nconns: int, names, datas, users=USERS) -> dict:
     """One abstract command, spelled."""
     k = rng.randrange(nconns)
     r = rng.random()
@@ -744,7 +850,7 @@ def gen_event(rng, nconns: int, names, datas) -> dict:
         body = word(b'UNAUTHENTICATE')
         ev = dict(kind='UNAUTH')
     else:
-        return gen_auth(rng, k)
+        return gen_auth(rng, k, users=users)
     buf = body + eol
     if rng.random() < 0.04:      # damage: trailing garbage / missing argument
         buf = rng.choice([body + b' x' + eol, body.rsplit(b' ', 1)[0] + eol, body + b' ""' + eol])
@@ -753,11 +859,11 @@ def gen_event(rng, nconns: int, names, datas) -> dict:
     return ev
 
 
-def gen_auth(rng, k: int, user=None, how=None) -> dict:
+def gen_auth(rng, k: int, user=None, how=None, users=USERS) -> dict:
     how = how or rng.choice(['plain', 'plain', 'plain', 'plain-cont', 'login', 'badpw', 'nouser',
                              'badmech', 'cancel', 'authzid', 'junk-cont', 'lit'])
-    user = user or rng.choice(['u1', 'u2', 'u1', 'u2', 'testuser'])
-    pw = USERS[user]
+    user = user or rng.choice(['u1', 'u2'] + list(users))
+    pw = users[user]
     cred = base64.b64encode(b'\0' + user.encode() + b'\0' + pw.encode())
     conts, target = [], user
     if how == 'plain':
@@ -803,19 +909,26 @@ for _w in FIVE + SCRIPT_CMDS + (b'UNAUTHENTICATE',):
         pool_add(_f, force=True)
 
 
-def gen_program(rng, nconns: int, length: int, cfg_name: str = 'default'):
+def gen_program(rng, nconns: int, length: int, cfg_name: str = 'default', backend: str = 'dict'):
+    users = WORLDS[backend].users
     names = rng.sample(NAMES, 4)
     if rng.random() < 0.5:
         names[:2] = [b'a', b'ab']           # one name a prefix of another
     datas = rng.sample(GOOD_SCRIPTS, 2) + rng.sample(BAD_SCRIPTS, 2)
     if cfg_name == 'small':
         datas[:2] = [S24, S25]              # at and just above max_filter_len
+    if backend == 'maildir':                # the one name that can be stored, and boundary scripts
+        names = [b'active', b'active', rng.choice([b'Active', b'foo', b'active ', b'a']),
+                 rng.choice(NAMES)]
+        datas = [rng.choice([b'', b'x', b'keep;']), b'', rng.choice(GOOD_SCRIPTS),
+                 rng.choice(BAD_SCRIPTS)]
+        rng.shuffle(datas)
     evs = []
     # most programs log somebody in early and store something, otherwise little happens
     logged = []
     for k in range(nconns):
         if rng.random() < 0.6:
-            evs.append(gen_auth(rng, k, how=rng.choice(['plain', 'plain-cont', 'login'])))
+            evs.append(gen_auth(rng, k, how=rng.choice(['plain', 'plain-cont', 'login']), users=users))
             logged.append(k)
     if logged and rng.random() < 0.7:
         k = rng.choice(logged)
@@ -824,15 +937,16 @@ def gen_program(rng, nconns: int, length: int, cfg_name: str = 'default'):
         evs.append(_fixed(k, 'PUT', (names[1], d), b'PUTSCRIPT ' + lit(names[1]) + b' ' + lit(d) + b'\r\n'))
         evs.append(_fixed(k, 'SETACTIVE', (names[0],), b'SETACTIVE ' + q(names[0]) + b'\r\n'))
     while len(evs) < length:
-        evs.append(gen_event(rng, nconns, names, datas))
+        evs.append(gen_event(rng, nconns, names, datas, users))
     if logged and rng.random() < 0.6:
         # a connection changes hands: UNAUTHENTICATE, then another user logs in on it
         k = rng.choice(logged)
         first = next(e for e in evs if e['kind'] == 'AUTH' and e['conn'] == k)
-        other = rng.choice([u for u in USERS if u != first.get('user')])
+        other = rng.choice([u for u in users if u != first.get('user')])
         i = rng.randrange(len(logged) + 3 if len(evs) > len(logged) + 3 else 1, len(evs) + 1)
         evs[i:i] = [_fixed(k, 'UNAUTH', (), b'UNAUTHENTICATE\r\n'),
-                    gen_auth(rng, k, user=other, how=rng.choice(['plain', 'plain-cont', 'login', 'lit']))]
+                    gen_auth(rng, k, user=other, how=rng.choice(['plain', 'plain-cont', 'login', 'lit']),
+                             users=users)]
         if rng.random() < 0.5:
             evs.insert(i + 2, _fixed(k, 'CAPABILITY', (), b'CAPABILITY\r\n'))
     return evs
@@ -844,16 +958,18 @@ def _fixed(k, kind, args, buf):
 
 
 # ------------------------------------------------------- running a program
-async def run_program(cfg_name: str, nconns: int, evs, monitor: bool = True, warm=tuple(USERS)):
+async def run_program(cfg_name: str, nconns: int, evs, monitor: bool = True, warm=tuple(USERS),
+                      backend: str = 'dict'):
     """-> dict(case term pieces, monitor failures, transcript)."""
-    w = await World(cfg_name).start(nconns, warm=warm)
+    W = WORLDS[backend]
+    w = await (W(cfg_name).start(nconns, warm=warm) if backend == 'dict' else W(cfg_name).start(nconns))
     try:
-        mon = Monitor(list(w.observers))
+        mon = Monitor(list(w.observers), backend)
         for u in w.observers:
             mon.load(u, *await w.observe(u))
         before = last = w.snapshot()
-        for fl, _a in before.values():
-            for _n, v in fl:
+        for snap in before.values():
+            for v in W.snap_strings(snap):
                 pool_add(v)
         greeting = parse_output(w.greeting)[0]
         sasl_tbl, comp_tbl, wire_evs, expect, transcript = [], {}, [], [], []
@@ -868,7 +984,7 @@ async def run_program(cfg_name: str, nconns: int, evs, monitor: bool = True, war
             if word == b'AUTHENTICATE':
                 c = impl_parse(buf)
                 if c is not None and type(c).__name__ == 'AuthenticateCommand':
-                    who = expected_auth(c.mech_name, c.initial_data, used)
+                    who = expected_auth(c.mech_name, c.initial_data, used, W.users)
                     ev['user'] = who
                     out = 'AuthFail' if who is None else f'(AuthOk {enc_key(who)} None)'
                     ob = 'None' if c.initial_data is None else f'(Some {T.bytes_(c.initial_data)})'
@@ -879,7 +995,7 @@ async def run_program(cfg_name: str, nconns: int, evs, monitor: bool = True, war
                 if c is not None and type(c).__name__ == 'CheckScriptCommand':
                     comp_tbl[c.script_data] = compiles(c.script_data)
             wire_evs.append(T.pair(T.nat(ev['conn']), B(buf), T.lst(B(x) for x in used)))
-            obs = T.lst(T.pair(enc_key(u), enc_fstate(*snap[u])) for u in USERS
+            obs = T.lst(T.pair(enc_key(u), W.enc_store(snap[u])) for u in W.users
                         if snap[u] != last[u])      # only the stores that changed
             last = snap
             expect.append(T.pair('None' if rs is None else f'(Some {enc_resp(word, rs)})', obs))
@@ -891,9 +1007,9 @@ async def run_program(cfg_name: str, nconns: int, evs, monitor: bool = True, war
                     mon.compare(u, names, scripts, active, actor, rs[-1].cond if rs else None)
         (mx, tls) = CONFIGS[cfg_name][2]
         cfg = f'(mk_config {"None" if mx is None else "(Some " + T.N(mx) + ")"} {T.boolean(tls)})'
-        term = ('(mk_case ' + ' '.join([
+        term = (f'({W.case_ctor} ' + ' '.join([
             cfg,
-            T.lst(T.pair(enc_key(u), enc_fstate(*before[u])) for u in USERS),
+            T.lst(T.pair(enc_key(u), W.enc_store(before[u])) for u in W.users),
             T.lst(sasl_tbl),
             T.lst(T.pair(B(d), T.boolean(b)) for d, b in comp_tbl.items()),
             T.nat(nconns),
@@ -906,8 +1022,8 @@ async def run_program(cfg_name: str, nconns: int, evs, monitor: bool = True, war
         await w.close()
 
 
-def describe(cfg_name, nconns, evs) -> dict:
-    return {'config': cfg_name, 'nconns': nconns,
+def describe(cfg_name, nconns, evs, backend: str = 'dict') -> dict:
+    return {'config': cfg_name, 'nconns': nconns, 'backend': backend,
             'events': [{'conn': e['conn'], 'kind': e['kind'], 'buf': e['buf'].hex(),
                         'conts': [c.hex() for c in e['conts']],
                         'args': [a.hex() if isinstance(a, bytes) else a for a in e.get('args', ())],
@@ -1101,7 +1217,7 @@ ALPHABET = [
 ]
 
 
-def section_programs(ctx) -> None:
+def section_programs(ctx):
     rng = _rng(ctx, 'programs')
     progs = []
     # (1) all sequences over the small alphabet on two connections: connection 0
@@ -1123,7 +1239,7 @@ def section_programs(ctx) -> None:
     relogged = starts[1] + [amk['UNAUTH'](1), gen_auth(None, 1, 'u2', 'plain')]
     maxlen = 3 if not ctx.quick else 2
     for pre in starts + [relogged]:
-        for n in range(1, (maxlen if pre is not relogged else 2) + 1):
+        for n in range(1, (maxlen if pre is not relogged else (1 if ctx.quick else 2)) + 1):
             for t in itertools.product(letters, repeat=n):
                 progs.append(('default', 2, pre + [mk(k) for k, _nm, mk in t], ('u1', 'u2')))
     # the gate on its own: every command of the alphabet on the unauthenticated connection,
@@ -1137,9 +1253,9 @@ def section_programs(ctx) -> None:
     # UNAUTHENTICATE, B logs in on the same connection — or tries to while A is still
     # authenticated (refused) — then every command of the alphabet, then both users' views
     for ua, ub in (('u1', 'u2'), ('u2', 'u1'), ('u1', 'u1')):
-        for stored in (False, True):
+        for stored in ((True,) if ctx.quick else (False, True)):
             for leave in (True, False):
-                for how in ('plain', 'login'):
+                for how in (('login',) if ctx.quick else ('plain', 'login')):
                     for _nm, mk in ALPHABET:
                         evs = [gen_auth(None, 0, ua, 'plain')]
                         if stored:
@@ -1153,12 +1269,12 @@ def section_programs(ctx) -> None:
     if ctx.quick:      # a sample of the length-3 sequences
         for _ in range(300):
             t = [rng.choice(letters) for _ in range(3)]
-            progs.append(('default', 2, rng.choice(starts) + [mk(k) for k, _nm, mk in t],
+            progs.append(('default', 2, rng.choice(starts + [relogged]) + [mk(k) for k, _nm, mk in t],
                           ('u1', 'u2')))
     ctx.extra['exhaustive_sequences'] = {'alphabet': len(letters), 'max_len': maxlen,
                                          'starting_stores': 2, 'count': n_exh}
     # (2) random programs
-    for _ in range(ctx.scale(400, 3000)):
+    for _ in range(ctx.scale(300, 3000)):
         cfg_name = rng.choice(['default', 'default', 'small', 'nolimit', 'tls'])
         nconns = rng.choice([2, 3, 3, 4])
         progs.append((cfg_name, nconns, gen_program(rng, nconns, rng.randint(6, 22), cfg_name),
@@ -1192,17 +1308,135 @@ def section_programs(ctx) -> None:
     ctx.extra['program_command_histogram'] = kinds
     ctx.sample({'program': [(c, b.decode('latin-1'), repr(r)) for c, b, _u, r in
                             results[-1].get('transcript', [])[:8]]})
-    bad = ctx.run_cases('sieve_prog', HEADER + pool_header(), 'prog_case', cases, 'chk_prog',
-                        shard=400 if ctx.quick else 250)
-    for j in bad[:5]:
-        cfg_name, nconns, evs, _warm = progs[idx[j]]
-        d = describe(cfg_name, nconns, evs)
-        d['transcript'] = [(c, b.decode('latin-1'), repr(r))
-                           for c, b, _u, r in results[idx[j]]['transcript']]
-        from .. import coqrun
-        d['model_at_first_difference'] = coqrun.eval_term(
-            ctx.prop, f'diag_{j}', HEADER + pool_header(), f'diag_prog {cases[j]}')[-1500:]
-        ctx.disagreement('sieve_prog', d)
+    def finish():      # the Coq part, run while the next batch of programs executes
+        bad = ctx.run_cases('sieve_prog', HEADER + pool_header(), 'prog_case', cases, 'chk_prog',
+                            shard=400 if ctx.quick else 250)
+        for j in bad[:5]:
+            cfg_name, nconns, evs, _warm = progs[idx[j]]
+            d = describe(cfg_name, nconns, evs)
+            d['transcript'] = [(c, b.decode('latin-1'), repr(r))
+                               for c, b, _u, r in results[idx[j]]['transcript']]
+            from .. import coqrun
+            d['model_at_first_difference'] = coqrun.eval_term(
+                ctx.prop, f'diag_{j}', HEADER + pool_header(), f'diag_prog {cases[j]}')[-1500:]
+            ctx.disagreement('sieve_prog', d)
+    return finish
+
+
+M_ALPHABET = [
+    ('AUTH', lambda k: gen_auth(None, k, 'u1', 'plain', M_USERS)),
+    ('AUTH2', lambda k: gen_auth(None, k, 'u2', 'plain', M_USERS)),
+    ('PUT0q', lambda k: _fixed(k, 'PUT', (b'active', b''), b'PUTSCRIPT "active" ""\r\n')),
+    ('PUT0l', lambda k: _fixed(k, 'PUT', (b'active', b''), b'PUTSCRIPT "active" {0+}\r\n\r\n')),
+    ('PUT1', lambda k: _fixed(k, 'PUT', (b'active', b'x'), b'PUTSCRIPT "active" "x"\r\n')),
+    ('PUTk', lambda k: _fixed(k, 'PUT', (b'active', b'keep;'), b'PUTSCRIPT {6+}\r\nactive {5+}\r\nkeep;\r\n')),
+    ('PUTfoo', lambda k: _fixed(k, 'PUT', (b'foo', b'keep;'), b'PUTSCRIPT "foo" "keep;"\r\n')),
+    ('GET', lambda k: _fixed(k, 'GET', (b'active',), b'GETSCRIPT "active"\r\n')),
+    ('GETfoo', lambda k: _fixed(k, 'GET', (b'foo',), b'GETSCRIPT "foo"\r\n')),
+    ('LIST', lambda k: _fixed(k, 'LIST', (), b'LISTSCRIPTS\r\n')),
+    ('ACT', lambda k: _fixed(k, 'SETACTIVE', (b'active',), b'SETACTIVE "active"\r\n')),
+    ('ACT0', lambda k: _fixed(k, 'SETACTIVE', (b'',), b'SETACTIVE ""\r\n')),
+    ('DEL', lambda k: _fixed(k, 'DELETE', (b'active',), b'DELETESCRIPT "active"\r\n')),
+    ('DELfoo', lambda k: _fixed(k, 'DELETE', (b'foo',), b'DELETESCRIPT "foo"\r\n')),
+    ('REN', lambda k: _fixed(k, 'RENAME', (b'active', b'foo'), b'RENAMESCRIPT "active" "foo"\r\n')),
+    ('UNAUTH', lambda k: _fixed(k, 'UNAUTH', (), b'UNAUTHENTICATE\r\n')),
+    ('HAVE', lambda k: _fixed(k, 'HAVESPACE', (b'active', 0), b'HAVESPACE "active" 0\r\n')),
+    ('CHECK0', lambda k: _fixed(k, 'CHECK', (b'',), b'CHECKSCRIPT ""\r\n')),
+]
+
+
+def section_maildir(ctx):
+    """The maildir backend's one-script store behind the same listener:
+    programs (exhaustive short + random, boundary scripts: empty, 1 byte) against
+    the model [mstate_run], and the monitor in its one-script mode."""
+    rng = _rng(ctx, 'maildir')
+    amk = dict(M_ALPHABET)
+    for _nm, mk in M_ALPHABET:
+        pool_add(mk(0)['buf'], force=True)
+    if ctx.quick:
+        on0 = ('AUTH', 'PUT1', 'GET', 'LIST')
+        on1 = ('PUT0q', 'PUT0l', 'PUT1', 'PUTk', 'PUTfoo', 'GET', 'LIST', 'ACT0', 'DEL', 'REN',
+               'UNAUTH', 'AUTH2')
+    else:
+        on0 = ('AUTH', 'AUTH2', 'PUT1', 'GET', 'LIST', 'DEL')
+        on1 = tuple(nm for nm, _ in M_ALPHABET if nm != 'AUTH')
+    letters = [(k, nm, mk) for k, use in ((0, on0), (1, on1)) for nm, mk in M_ALPHABET if nm in use]
+    login = [gen_auth(None, 1, 'u1', 'plain', M_USERS)]
+    starts = [login, login + [amk['PUTk'](1)]]      # no script / a script stored
+    progs = []
+    for si, pre in enumerate(starts):
+        for n in ((1, 2) if si == 0 or not ctx.quick else (1,)):
+            for t in itertools.product(letters, repeat=n):
+                progs.append((2, pre + [mk(k) for k, _nm, mk in t]))
+    n_exh = len(progs)
+    for _ in range(ctx.scale(100, 2500)):       # length 3
+        t = [rng.choice(letters) for _ in range(3)]
+        progs.append((2, rng.choice(starts) + [mk(k) for k, _nm, mk in t]))
+    # a connection changes hands
+    for ua, ub in (('u1', 'u2'), ('u2', 'u1')):
+        for _nm, mk in M_ALPHABET:
+            progs.append((2, [gen_auth(None, 0, ua, 'plain', M_USERS), amk['PUT1'](0), amk['UNAUTH'](0),
+                              gen_auth(None, 0, ub, 'login', M_USERS), mk(0), amk['LIST'](0),
+                              amk['GET'](0)]))
+    for _ in range(ctx.scale(80, 1000)):
+        nconns = rng.choice([2, 3])
+        progs.append((nconns, gen_program(rng, nconns, rng.randint(6, 18), 'default', 'maildir')))
+    ctx.extra['maildir_sequences'] = {'alphabet': len(letters), 'max_len': 2, 'exhaustive': n_exh,
+                                      'programs': len(progs)}
+
+    async def run_all():
+        out = []
+        for nconns, evs in progs:
+            try:
+                out.append(await run_program('default', nconns, evs, backend='maildir'))
+            except Exception as exc:
+                out.append(dict(error=repr(exc)))
+        return out
+    results = asyncio.run(run_all())
+    cases, idx = [], []
+    for i, ((nconns, evs), res) in enumerate(zip(progs, results)):
+        if 'error' in res:
+            ctx.failure('harness', f'maildir program could not be run: {res["error"]}',
+                        describe('default', nconns, evs, 'maildir'), {'kind': 'harness_error'})
+            continue
+        for clause, what, obs in res['failures'][:3]:
+            ctx.failure(clause, what, describe('default', nconns, evs, 'maildir'), obs)
+        ctx.count(('mprog', nconns, tuple(e['buf'] for e in evs)))
+        cases.append(res['term'])
+        idx.append(i)
+    ctx.sample({'maildir_program': [(c, b.decode('latin-1'), repr(r)) for c, b, _u, r in
+                                    results[0].get('transcript', [])[:8]]})
+    def finish():      # the Coq part, run while the next batch of programs executes
+        hdr = HEADER + pool_header()
+        bad = ctx.run_cases('sieve_prog_maildir', hdr, 'mprog_case', cases, 'chk_mprog', shard=400)
+        for j in bad[:5]:
+            nconns, evs = progs[idx[j]]
+            d = describe('default', nconns, evs, 'maildir')
+            d['transcript'] = [(c, b.decode('latin-1'), repr(r))
+                               for c, b, _u, r in results[idx[j]]['transcript']]
+            from .. import coqrun
+            d['model_at_first_difference'] = coqrun.eval_term(
+                ctx.prop, f'mdiag_{j}', hdr, f'diag_mprog {cases[j]}')[-1500:]
+            ctx.disagreement('sieve_prog_maildir', d)
+    return finish
+
+
+def section_worlds(ctx) -> None:
+    """Both backends' programs.  The servers of the two backends are never run
+    from different threads at the same time (doing so crashed CPython 3.12.1 with
+    a segmentation fault inside IMAPConfig construction); only the Coq evaluation
+    of one batch overlaps the execution of the next."""
+    from concurrent.futures import ThreadPoolExecutor
+    only = [x for x in os.environ.get('VERIF_C19_SECTIONS', '').split(',') if x]
+    with ThreadPoolExecutor(max_workers=1) as ex:
+        fut = None
+        if not only or 'programs' in only:
+            fut = ex.submit(section_programs(ctx))
+        fin = section_maildir(ctx) if not only or 'maildir' in only else None
+        if fut is not None:
+            fut.result()
+        if fin is not None:
+            fin()
 
 
 def run(ctx) -> None:
@@ -1239,14 +1473,17 @@ def run(ctx) -> None:
     async def _warm():
         w = await World('default').start(1)
         await w.close()
+        w = await MWorld('default').start(1)
+        await w.close()
     asyncio.run(_warm())
     impl_parse(b'NOOP\r\n')
     compiles(b'keep;')
     from pymap.backend.dict.filter import FilterSet  # noqa: F401
     only = [x for x in os.environ.get('VERIF_C19_SECTIONS', '').split(',') if x]   # debugging aid
-    sections = [f for f in (section_programs, section_parse, section_filterset)
-                if not only or f.__name__[len('section_'):] in only]
-    with ThreadPoolExecutor(max_workers=3) as ex:
+    sections = [f for f in (section_worlds, section_parse, section_filterset)
+                if not only or f.__name__[len('section_'):] in only
+                or (f is section_worlds and ('programs' in only or 'maildir' in only))]
+    with ThreadPoolExecutor(max_workers=4) as ex:
         futs = [(f.__name__, ex.submit(f, ctx)) for f in sections]
         for name, fut in futs:
             try:
@@ -1262,7 +1499,7 @@ def replay(ctx, obj) -> int:
         print('nothing to replay in', obj.get('no_longer_checks'))
         return 0
     cfg_name, nconns, evs = undescribe(obj)
-    res = asyncio.run(run_program(cfg_name, nconns, evs))
+    res = asyncio.run(run_program(cfg_name, nconns, evs, backend=obj.get('backend', 'dict')))
     for c, buf, used, rs in res['transcript']:
         print(f'conn {c}: {buf!r} {used or ""} -> {rs}')
     for f in res['failures']:
